@@ -298,12 +298,18 @@ Proof.
   destruct (c_always cfg), ex; reflexivity.
 Qed.
 
+(** the generated `log::Record` builders copy file / line / module path from the callsite's metadata *)
+Lemma build_macro : forall m l t x, build_lrec gen_macro_log_builder m l t x = mkL l t x (m_file m) (m_line m) (m_module m).
+Proof. intros. reflexivity. Qed.
+Lemma build_span : forall m l t x, build_lrec gen_span_log_builder m l t x = mkL l t x (m_file m) (m_line m) (m_module m).
+Proof. intros. reflexivity. Qed.
+
 Lemma event_log_closed : forall cfg ex m vs,
   event_log cfg ex m vs =
     if gates cfg ex (m_level m) (m_level m) (m_target m) (m_level m)
     then [mkL (m_level m) (m_target m) (fmt_values true vs) (m_file m) (m_line m) (m_module m)] else [].
 Proof.
-  intros. unfold event_log, gates. rewrite if_log_enabled_spec, level_to_log_id.
+  intros. unfold event_log, gates. rewrite if_log_enabled_spec, level_to_log_id, build_macro.
   destruct (log_le (m_level m) (c_static_max cfg) && (c_always cfg || negb ex)); cbn [andb]; [|reflexivity].
   destruct (log_le (m_level m) (c_log_max cfg)); cbn [andb]; [|reflexivity].
   destruct (c_logger cfg (m_target m) (m_level m)); reflexivity.
@@ -317,7 +323,8 @@ Lemma span_log_closed : forall cfg s m target level message, s_meta s = Some m -
     if log_le (m_level m) (c_log_max cfg) && c_logger cfg target level
     then [mkL level target (with_id s message) (m_file m) (m_line m) (m_module m)] else [].
 Proof.
-  intros cfg s m target level message Hm. unfold span_log, with_id. rewrite Hm, level_to_log_id.
+  intros cfg s m target level message Hm. unfold span_log, with_id. rewrite Hm, build_span.
+  change gen_span_log_max_on_span_level with true. cbv iota. rewrite level_to_log_id.
   destruct (log_le (m_level m) (c_log_max cfg)); cbn [andb]; [|reflexivity].
   destruct (c_logger cfg target level); [|reflexivity].
   destruct (s_id s); [|reflexivity]. cbn. rewrite app_nil_r. reflexivity.
@@ -385,12 +392,22 @@ Definition field_shown (in_event : bool) (k : bytes) (v : fval) (text : bytes) :
 Definition fields_shown (in_event : bool) (vs : valueset) (text : bytes) : Prop :=
   forall k v, In (k, Some v) vs -> field_shown in_event k v text.
 
+Lemma message_name : gen_lvs_message_name = MESSAGE.
+Proof. reflexivity. Qed.
+(** the three generated literals, filled *)
+Lemma lvs_message : forall d, fill gen_lvs_message [d] = d.
+Proof. intros. cbn. now rewrite app_nil_r. Qed.
+Lemma lvs_first : forall k d, fill gen_lvs_first [k; d] = k ++ EQ ++ d.
+Proof. intros. cbn. now rewrite app_nil_r. Qed.
+Lemma lvs_rest : forall k d, fill gen_lvs_rest [k; d] = [32] ++ k ++ EQ ++ d.
+Proof. intros. cbn. now rewrite app_nil_r. Qed.
+
 Lemma fmt_values_shows : forall vs first k v d, In (k, Some v) vs -> render k v = Some d ->
   contains (k ++ EQ ++ d) (fmt_values first vs) \/ (first = true /\ is_message k = true /\ contains d (fmt_values first vs)).
 Proof.
   induction vs as [|[k0 ov0] vs IH]; intros first k v d Hin Hr; [contradiction|].
   destruct Hin as [E | Hin].
-  - inversion E; subst k0 ov0. cbn [fmt_values]. rewrite Hr.
+  - inversion E; subst k0 ov0. cbn [fmt_values]. rewrite Hr, lvs_message, lvs_first, lvs_rest.
     destruct first.
     + destruct (is_message k) eqn:Em.
       * right. repeat split. apply contains_app_l, contains_refl.
@@ -430,7 +447,7 @@ Definition id_shown (sid : option N) (text : bytes) : Prop :=
 
 Definition step_spec (o : op) (out : list lrec) : Prop :=
   match o with
-  | OpInstall | OpUninstall => out = []
+  | OpInstall | OpUninstall | OpFollows _ _ => out = []
   | OpEvent m vs =>
       exists r, out = [r] /\ as_log_level (m_level m) = Some (l_level r) /\ l_target r = m_target m /\
                 fields_shown true vs (l_text r) /\ same_loc r m
@@ -490,7 +507,7 @@ Proof. intros s t. unfold id_shown, with_id. destruct (s_id s); [apply contains_
 Lemma step_emits : forall cfg ex o, accepting cfg -> emitting cfg ex -> o <> OpInstall ->
   step_spec o (snd (step cfg ex o)).
 Proof.
-  intros cfg ex o Ha He Hno. destruct o as [| |m vs|m vs sid|s vs|s|s|s]; cbn [step snd step_spec]; try reflexivity; try congruence.
+  intros cfg ex o Ha He Hno. destruct o as [| |m vs|m vs sid|s vs|s|s|s|s fr]; cbn [step snd step_spec]; try reflexivity; try congruence.
   - rewrite event_log_closed, gates_open by assumption. eexists. split; [reflexivity|]. cbn [l_level l_target l_text].
     rewrite as_log_id. split; [reflexivity|]. split; [reflexivity|]. split; [apply fmt_values_event | reflexivity].
   - rewrite new_span_closed, gates_open by assumption. eexists. split; [reflexivity|]. cbn [l_level l_target l_text].
@@ -560,7 +577,7 @@ Proof.
   intros cfg o Hal.
   assert (G : forall g mx t l, gates cfg true g mx t l = false).
   { intros. unfold gates. rewrite Hal. cbn. rewrite Bool.andb_false_r. reflexivity. }
-  destruct o as [| |m vs|m vs sid|s vs|s|s|s]; cbn [step snd]; try reflexivity.
+  destruct o as [| |m vs|m vs sid|s vs|s|s|s|s fr]; cbn [step snd]; try reflexivity.
   - rewrite event_log_closed, G. reflexivity.
   - rewrite new_span_closed, G. reflexivity.
   - destruct (s_meta s) as [m|] eqn:Hm; [rewrite (record_all_closed cfg true s m vs Hm), G; reflexivity|].
@@ -620,7 +637,7 @@ Proof. intros. rewrite run_app. cbn [fst]. rewrite H. apply exists_monotone. Qed
 (** ** for EVERY configuration: a step emits at most one record, and exactly one iff its gates are open *)
 Definition step_gates (cfg : lcfg) (ex : bool) (o : op) : bool :=
   match o with
-  | OpInstall | OpUninstall => false
+  | OpInstall | OpUninstall | OpFollows _ _ => false
   | OpEvent m vs => gates cfg ex (m_level m) (m_level m) (m_target m) (m_level m)
   | OpNewSpan m vs _ => gates cfg ex (m_level m) (m_level m) (span_target m vs) (m_level m)
   | OpRecord s vs => match s_meta s with Some m => gates cfg ex (m_level m) (m_level m) (span_target m vs) (m_level m) | None => false end
@@ -631,7 +648,7 @@ Definition step_gates (cfg : lcfg) (ex : bool) (o : op) : bool :=
 Theorem step_count : forall cfg ex o,
   List.length (snd (step cfg ex o)) = if step_gates cfg ex o then 1%nat else 0%nat.
 Proof.
-  intros cfg ex o. destruct o as [| |m vs|m vs sid|s vs|s|s|s]; cbn [step snd step_gates]; try reflexivity.
+  intros cfg ex o. destruct o as [| |m vs|m vs sid|s vs|s|s|s|s fr]; cbn [step snd step_gates]; try reflexivity.
   - rewrite event_log_closed. destruct (gates _ _ _ _ _ _); reflexivity.
   - rewrite new_span_closed. destruct (gates _ _ _ _ _ _); reflexivity.
   - destruct (s_meta s) as [m|] eqn:Hm.
@@ -705,3 +722,440 @@ Proof. split; reflexivity. Qed.
 Example ex_gate_closed : forall ex,
   step_gates (mkCfg false (Some Trace) (Some Warn) (fun _ _ => true)) ex (OpEvent ex_meta ex_vs) = false.
 Proof. intros []; reflexivity. Qed.
+
+(** * The flag on any number of threads, one atomic action at a time *)
+Lemma has_been_set_is_exists : gen_has_been_set = HLoad AExists.
+Proof. reflexivity. Qed.
+Lemma hbs_spec : forall r, has_been_set r = negb (r_exists r =? 0).
+Proof. intros. reflexivity. Qed.
+Lemma hbs_true : forall r, has_been_set r = true <-> r_exists r <> 0.
+Proof. intros. rewrite hbs_spec, Bool.negb_true_iff, N.eqb_neq. tauto. Qed.
+Lemma hbs_false : forall r, has_been_set r = false <-> r_exists r = 0.
+Proof. intros. rewrite hbs_spec, Bool.negb_false_iff, N.eqb_eq. tauto. Qed.
+
+(** what an action may do to EXISTS *)
+Definition keeps_exists (a : action) : bool :=
+  match a with
+  | ActStore AExists v => negb (v =? 0)
+  | ActFetchAdd AExists _ | ActFetchSub AExists _ => false
+  | ActCas AExists _ n => negb (n =? 0)
+  | _ => true
+  end.
+Definition raises_exists (a : action) : bool :=
+  match a with ActStore AExists v => negb (v =? 0) | _ => false end.
+Definition touches_exists (a : action) : bool :=
+  match a with
+  | ActStore AExists _ | ActFetchAdd AExists _ | ActFetchSub AExists _ | ActCas AExists _ _ => true
+  | _ => false
+  end.
+
+(** read off the generated action lists: nothing ever lowers EXISTS, each installing function raises it before it
+    returns, dropping a guard does not touch it *)
+Lemma bodies_keep : forall f, forallb keeps_exists (fn_body f) = true.
+Proof. intros []; reflexivity. Qed.
+Lemma install_raises : forall f, is_install f = true -> existsb raises_exists (fn_body f) = true.
+Proof. intros []; intros H; try discriminate; reflexivity. Qed.
+Lemma drop_untouched : forallb (fun a => negb (touches_exists a)) (fn_body FGuardDrop) = true.
+Proof. reflexivity. Qed.
+
+Lemma act_keeps : forall a r, keeps_exists a = true -> r_exists r <> 0 -> r_exists (fst (act a r)) <> 0.
+Proof.
+  intros [[] v|[] d|[] d|[] o n|] r Hk Hr; cbn in *; try discriminate; try assumption.
+  - now apply Bool.negb_true_iff, N.eqb_neq in Hk.
+  - destruct (r_exists r =? o); cbn; [now apply Bool.negb_true_iff, N.eqb_neq in Hk | assumption].
+  - destruct (r_ginit r =? o); cbn; assumption.
+  - destruct (r_scount r =? o); cbn; assumption.
+Qed.
+Lemma act_raises : forall a r, raises_exists a = true -> r_exists (fst (act a r)) <> 0 /\ snd (act a r) = true.
+Proof.
+  intros [[] v|a d|a d|a o n|] r H; cbn in *; try discriminate.
+  split; [now apply Bool.negb_true_iff, N.eqb_neq in H | reflexivity].
+Qed.
+Lemma act_untouched : forall a r, touches_exists a = false -> r_exists (fst (act a r)) = r_exists r.
+Proof.
+  intros [[] v|[] d|[] d|[] o n|] r H; cbn in *; try discriminate; try reflexivity.
+  - destruct (r_ginit r =? o); reflexivity.
+  - destruct (r_scount r =? o); reflexivity.
+Qed.
+
+Lemma mrun_cons : forall cfg s o rest,
+  mrun cfg s (o :: rest) =
+    (fst (mrun cfg (fst (mstep cfg s o)) rest), snd (mstep cfg s o) :: snd (mrun cfg (fst (mstep cfg s o)) rest)).
+Proof.
+  intros. cbn [mrun]. destruct (mstep cfg s o) as [s' out]. cbn [fst snd]. destruct (mrun cfg s' rest). reflexivity.
+Qed.
+Lemma mrun_app : forall cfg h1 h2 s,
+  mrun cfg s (h1 ++ h2) =
+    (fst (mrun cfg (fst (mrun cfg s h1)) h2), snd (mrun cfg s h1) ++ snd (mrun cfg (fst (mrun cfg s h1)) h2)).
+Proof.
+  intros cfg h1. induction h1 as [|o rest IH]; intros h2 s.
+  - cbn [app mrun fst snd]. destruct (mrun cfg s h2); reflexivity.
+  - cbn [app]. rewrite !mrun_cons, IH. reflexivity.
+Qed.
+Lemma mrun_length : forall cfg h s, List.length (snd (mrun cfg s h)) = List.length h.
+Proof. intros cfg h. induction h as [|o r IH]; intros s; [reflexivity|]. rewrite mrun_cons. cbn. now rewrite IH. Qed.
+
+(** ** the invariant *)
+Definition thr_ok (s : mstate) : Prop :=
+  forall t f rem, m_thr s t = Some (f, rem) ->
+    forallb keeps_exists rem = true /\
+    (is_install f = true -> existsb raises_exists rem = true \/ r_exists (m_regs s) <> 0).
+Definition inv (s : mstate) : Prop := thr_ok s /\ (m_installed s = true -> r_exists (m_regs s) <> 0).
+
+Lemma inv_init : inv minit.
+Proof. split; [intros t f rem H; discriminate | intros H; discriminate]. Qed.
+
+Lemma upd_same : forall A (th : N -> A) t v, upd th t v t = v.
+Proof. intros. unfold upd. now rewrite N.eqb_refl. Qed.
+Lemma upd_other : forall A (th : N -> A) t t' v, t' <> t -> upd th t v t' = th t'.
+Proof. intros. unfold upd. apply N.eqb_neq in H. now rewrite H. Qed.
+
+Lemma mstep_inv : forall cfg s o, inv s -> inv (fst (mstep cfg s o)).
+Proof.
+  intros cfg s o [Hthr Hinst]. destruct o as [t f|t|t o]; cbn [mstep].
+  - destruct (m_thr s t) as [c|] eqn:Et; cbn [fst]; [split; assumption|].
+    split; cbn [m_regs m_thr m_installed]; [|assumption].
+    intros t' f' rem H; cbn [m_regs m_thr m_installed] in *. destruct (N.eq_dec t' t) as [->|Hne].
+    + rewrite upd_same in H. inversion H; subst f' rem. split; [apply bodies_keep|]. intros Hi. left. now apply install_raises.
+    + rewrite upd_other in H by assumption. exact (Hthr t' f' rem H).
+  - destruct (m_thr s t) as [[f [|a rest]]|] eqn:Et; cbn [fst]; [| |split; assumption].
+    + (* nothing left: the call returns *)
+      destruct (Hthr t f [] Et) as [_ Hr].
+      split; cbn [m_regs m_thr m_installed].
+      * intros t' f' rem H; cbn [m_regs m_thr m_installed] in *. destruct (N.eq_dec t' t) as [->|Hne]; [rewrite upd_same in H; discriminate|].
+        rewrite upd_other in H by assumption. exact (Hthr t' f' rem H).
+      * intros H. apply Bool.orb_true_iff in H as [H|H]; [now apply Hinst|].
+        destruct (Hr H) as [Hx|Hx]; [discriminate | assumption].
+    + destruct (Hthr t f (a :: rest) Et) as [Hk Hr]. cbn [forallb] in Hk. apply Bool.andb_true_iff in Hk as [Hka Hkr].
+      pose proof (act_keeps a (m_regs s) Hka) as Hkeep.
+      assert (Hoth : forall r', r' = fst (act a (m_regs s)) ->
+                forall t' f' rem, t' <> t -> m_thr s t' = Some (f', rem) ->
+                  forallb keeps_exists rem = true /\
+                  (is_install f' = true -> existsb raises_exists rem = true \/ r_exists r' <> 0)).
+      { intros r' -> t' f' rem Hne H. destruct (Hthr t' f' rem H) as [K R]. split; [assumption|].
+        intros Hi. destruct (R Hi) as [Hx|Hx]; [now left | right; now apply Hkeep]. }
+      destruct (act a (m_regs s)) as [r' go] eqn:Ea. cbn [fst] in Hkeep, Hoth.
+      assert (Hraise : raises_exists a = true -> r_exists r' <> 0 /\ go = true).
+      { intros Hx. pose proof (act_raises a (m_regs s) Hx) as P. rewrite Ea in P. exact P. }
+      destruct go.
+      * destruct rest as [|a2 rest2]; cbn [fst]; split; cbn [m_regs m_thr m_installed].
+        -- intros t' f' rem H; cbn [m_regs m_thr m_installed] in *. destruct (N.eq_dec t' t) as [->|Hne]; [rewrite upd_same in H; discriminate|].
+           rewrite upd_other in H by assumption. exact (Hoth r' eq_refl t' f' rem Hne H).
+        -- intros H. apply Bool.orb_true_iff in H as [H|H]; [now apply Hkeep, Hinst|].
+           destruct (Hr H) as [Hx|Hx]; [|now apply Hkeep].
+           cbn [existsb] in Hx. rewrite Bool.orb_false_r in Hx. now apply Hraise.
+        -- intros t' f' rem H; cbn [m_regs m_thr m_installed] in *. destruct (N.eq_dec t' t) as [->|Hne].
+           ++ rewrite upd_same in H. inversion H; subst f' rem. split; [assumption|].
+              intros Hi. destruct (Hr Hi) as [Hx|Hx]; [|right; now apply Hkeep].
+              cbn [existsb] in Hx. apply Bool.orb_true_iff in Hx as [Hx|Hx]; [right; now apply Hraise | now left].
+           ++ rewrite upd_other in H by assumption. exact (Hoth r' eq_refl t' f' rem Hne H).
+        -- intros H. now apply Hkeep, Hinst.
+      * cbn [fst]; split; cbn [m_regs m_thr m_installed].
+        -- intros t' f' rem H; cbn [m_regs m_thr m_installed] in *. destruct (N.eq_dec t' t) as [->|Hne]; [rewrite upd_same in H; discriminate|].
+           rewrite upd_other in H by assumption. exact (Hoth r' eq_refl t' f' rem Hne H).
+        -- intros H. now apply Hkeep, Hinst.
+  - cbn [fst]. split; assumption.
+Qed.
+
+Lemma mrun_inv : forall cfg h s, inv s -> inv (fst (mrun cfg s h)).
+Proof.
+  intros cfg h. induction h as [|o rest IH]; intros s Hs; [exact Hs|].
+  rewrite mrun_cons. cbn [fst]. apply IH. now apply mstep_inv.
+Qed.
+
+(** ** monotone: no step of any thread clears the flag *)
+Lemma mstep_exists_kept : forall cfg s o, inv s -> r_exists (m_regs s) <> 0 -> r_exists (m_regs (fst (mstep cfg s o))) <> 0.
+Proof.
+  intros cfg s o [Hthr _] Hr. destruct o as [t f|t|t o]; cbn [mstep].
+  - destruct (m_thr s t); cbn; assumption.
+  - destruct (m_thr s t) as [[f [|a rest]]|] eqn:Et; cbn [fst m_regs]; try assumption.
+    destruct (Hthr t f (a :: rest) Et) as [Hk _]. cbn [forallb] in Hk. apply Bool.andb_true_iff in Hk as [Hka _].
+    pose proof (act_keeps a (m_regs s) Hka Hr) as K. destruct (act a (m_regs s)) as [r' go]. cbn [fst] in K.
+    destruct go; [destruct rest|]; cbn; assumption.
+  - cbn. assumption.
+Qed.
+Theorem exists_monotone_mt : forall cfg h s, inv s -> has_been_set (m_regs s) = true ->
+  has_been_set (m_regs (fst (mrun cfg s h))) = true.
+Proof.
+  intros cfg h. induction h as [|o rest IH]; intros s Hs Hx; [exact Hx|].
+  rewrite mrun_cons. cbn [fst]. apply IH; [now apply mstep_inv|].
+  apply hbs_true. apply mstep_exists_kept; [assumption | now apply hbs_true].
+Qed.
+(** from the initial state: over every history of calls and atomic steps of any threads, once `has_been_set()`
+    has answered true it answers true after every continuation *)
+Theorem exists_never_resets_mt : forall cfg h1 h2,
+  has_been_set (m_regs (fst (mrun cfg minit h1))) = true ->
+  has_been_set (m_regs (fst (mrun cfg minit (h1 ++ h2)))) = true.
+Proof.
+  intros cfg h1 h2 H. rewrite mrun_app. cbn [fst]. apply exists_monotone_mt; [apply mrun_inv, inv_init | exact H].
+Qed.
+(** once `set_default` or a successful `set_global_default` has returned on some thread, the flag is set *)
+Theorem installed_sets_flag : forall cfg h,
+  m_installed (fst (mrun cfg minit h)) = true -> has_been_set (m_regs (fst (mrun cfg minit h))) = true.
+Proof.
+  intros cfg h H. apply hbs_true. destruct (mrun_inv cfg h minit inv_init) as [_ Hi]. now apply Hi.
+Qed.
+
+(** ** what each machine step must emit *)
+Definition mop_spec (o : mop) (out : list lrec) : Prop :=
+  match o with MLog _ op => step_spec op out | _ => out = [] end.
+
+Lemma mstep_silent : forall cfg s o, c_always cfg = false -> has_been_set (m_regs s) = true -> snd (mstep cfg s o) = [].
+Proof.
+  intros cfg s o Hal Hx. destruct o as [t f|t|t o]; cbn [mstep].
+  - destruct (m_thr s t); reflexivity.
+  - destruct (m_thr s t) as [[f [|a rest]]|]; try reflexivity.
+    destruct (act a (m_regs s)) as [r' go]. destruct go; [destruct rest|]; reflexivity.
+  - cbn [snd]. rewrite Hx. now apply step_silent.
+Qed.
+Lemma mrun_silent : forall cfg h s, c_always cfg = false -> inv s -> has_been_set (m_regs s) = true ->
+  snd (mrun cfg s h) = map (fun _ => []) h.
+Proof.
+  intros cfg h. induction h as [|o rest IH]; intros s Hal Hs Hx; [reflexivity|].
+  rewrite mrun_cons. cbn [snd map]. rewrite mstep_silent by assumption. f_equal.
+  apply IH; [assumption | now apply mstep_inv |].
+  apply hbs_true. apply mstep_exists_kept; [assumption | now apply hbs_true].
+Qed.
+
+(** C18_reverse_after, all threads: once an install has returned on ANY thread, nothing is emitted by any thread,
+    whatever follows (guards dropped on any thread, more installs, half-finished calls, ...) *)
+Theorem reverse_after_mt : forall cfg h1 h2, c_always cfg = false ->
+  m_installed (fst (mrun cfg minit h1)) = true ->
+  exists o1, snd (mrun cfg minit (h1 ++ h2)) = o1 ++ map (fun _ => []) h2 /\ List.length o1 = List.length h1 /\
+             has_been_set (m_regs (fst (mrun cfg minit (h1 ++ h2)))) = true.
+Proof.
+  intros cfg h1 h2 Hal Hi. pose proof (installed_sets_flag cfg h1 Hi) as Hx.
+  exists (snd (mrun cfg minit h1)). rewrite mrun_app. cbn [fst snd]. split; [|split].
+  - f_equal. apply mrun_silent; [assumption | apply mrun_inv, inv_init | assumption].
+  - apply mrun_length.
+  - apply exists_monotone_mt; [apply mrun_inv, inv_init | assumption].
+Qed.
+(** the same from the flag itself (covers the window between the EXISTS store and the function's return) *)
+Theorem reverse_after_flag_mt : forall cfg h1 h2, c_always cfg = false ->
+  has_been_set (m_regs (fst (mrun cfg minit h1))) = true ->
+  exists o1, snd (mrun cfg minit (h1 ++ h2)) = o1 ++ map (fun _ => []) h2 /\ List.length o1 = List.length h1.
+Proof.
+  intros cfg h1 h2 Hal Hx. exists (snd (mrun cfg minit h1)). rewrite mrun_app. cbn [fst snd]. split; [|apply mrun_length].
+  f_equal. apply mrun_silent; [assumption | apply mrun_inv, inv_init | assumption].
+Qed.
+
+(** ** before: no thread has ever entered an installing function *)
+Definition no_install (h : list mop) : Prop := forall t f, In (MCall t f) h -> f = FGuardDrop.
+Definition quiet (s : mstate) : Prop :=
+  r_exists (m_regs s) = 0 /\
+  forall t f rem, m_thr s t = Some (f, rem) -> forallb (fun a => negb (touches_exists a)) rem = true.
+Lemma quiet_init : quiet minit.
+Proof. split; [reflexivity | intros t f rem H; discriminate]. Qed.
+
+Lemma mstep_quiet : forall cfg s o, quiet s -> (forall t f, o = MCall t f -> f = FGuardDrop) -> quiet (fst (mstep cfg s o)).
+Proof.
+  intros cfg s o [Hz Hthr] Hno. destruct o as [t f|t|t o]; cbn [mstep].
+  - destruct (m_thr s t) eqn:Et; cbn [fst]; [split; assumption|].
+    rewrite (Hno t f eq_refl). split; cbn [m_regs m_thr]; [assumption|].
+    intros t' f' rem H; cbn [m_regs m_thr m_installed] in *. destruct (N.eq_dec t' t) as [->|Hne].
+    + rewrite upd_same in H. inversion H; subst. apply drop_untouched.
+    + rewrite upd_other in H by assumption. exact (Hthr t' f' rem H).
+  - destruct (m_thr s t) as [[f [|a rest]]|] eqn:Et; cbn [fst]; [| |split; assumption].
+    + split; cbn [m_regs m_thr]; [assumption|].
+      intros t' f' rem H; cbn [m_regs m_thr m_installed] in *. destruct (N.eq_dec t' t) as [->|Hne]; [rewrite upd_same in H; discriminate|].
+      rewrite upd_other in H by assumption. exact (Hthr t' f' rem H).
+    + pose proof (Hthr t f (a :: rest) Et) as Hk. cbn [forallb] in Hk. apply Bool.andb_true_iff in Hk as [Hka Hkr].
+      apply Bool.negb_true_iff in Hka. pose proof (act_untouched a (m_regs s) Hka) as U.
+      destruct (act a (m_regs s)) as [r' go]. cbn [fst] in U.
+      assert (Hoth : forall v t' f' rem, upd (m_thr s) t v t' = Some (f', rem) -> v = None \/ v = Some (f, rest) ->
+                forallb (fun a => negb (touches_exists a)) rem = true).
+      { intros v t' f' rem H Hv. destruct (N.eq_dec t' t) as [->|Hne].
+        - rewrite upd_same in H. destruct Hv as [-> | ->]; [discriminate | now inversion H; subst].
+        - rewrite upd_other in H by assumption. exact (Hthr t' f' rem H). }
+      destruct go; [destruct rest as [|a2 rest2]|]; cbn [fst]; split; cbn [m_regs m_thr]; try (rewrite U; assumption);
+        intros t' f' rem H; cbn [m_regs m_thr m_installed] in *; eapply Hoth; eauto.
+  - cbn [fst]. split; assumption.
+Qed.
+
+Lemma mstep_emits : forall cfg s o, accepting cfg -> (c_always cfg = true \/ has_been_set (m_regs s) = false) ->
+  mop_spec o (snd (mstep cfg s o)).
+Proof.
+  intros cfg s o Ha He. destruct o as [t f|t|t o]; cbn [mstep mop_spec].
+  - destruct (m_thr s t); reflexivity.
+  - destruct (m_thr s t) as [[f [|a rest]]|]; try reflexivity.
+    destruct (act a (m_regs s)) as [r' go]. destruct go; [destruct rest|]; reflexivity.
+  - cbn [snd]. destruct o; try (apply step_emits; [assumption | exact He | congruence]). reflexivity.
+Qed.
+
+(** C18_reverse_before, all threads: while no thread has entered `set_default` / `set_global_default` (guards may be
+    dropped, steps taken, in any order) every event and span lifecycle step of every thread emits exactly its record *)
+Theorem reverse_before_mt : forall cfg h s, accepting cfg -> quiet s -> no_install h ->
+  Forall2 mop_spec h (snd (mrun cfg s h)) /\ has_been_set (m_regs (fst (mrun cfg s h))) = false.
+Proof.
+  intros cfg h. induction h as [|o rest IH]; intros s Ha Hq Hno.
+  - split; [constructor | apply hbs_false, Hq].
+  - rewrite mrun_cons. cbn [fst snd].
+    assert (Hq' : quiet (fst (mstep cfg s o))).
+    { apply mstep_quiet; [assumption|]. intros t f ->. apply (Hno t f). left. reflexivity. }
+    assert (Hno' : no_install rest) by (intros t f H; apply (Hno t f); right; exact H).
+    destruct (IH _ Ha Hq' Hno') as [I1 I2]. split; [|exact I2].
+    constructor; [|exact I1]. apply mstep_emits; [assumption|]. right. apply hbs_false, Hq.
+Qed.
+
+(** `log-always`, all threads: one record per logging step whatever any thread does to the default collector *)
+Theorem reverse_always_mt : forall cfg h s, accepting cfg -> c_always cfg = true ->
+  Forall2 mop_spec h (snd (mrun cfg s h)).
+Proof.
+  intros cfg h. induction h as [|o rest IH]; intros s Ha Hal; [constructor|].
+  rewrite mrun_cons. cbn [snd]. constructor; [|now apply IH]. apply mstep_emits; [assumption | now left].
+Qed.
+
+(** every machine step emits at most one record; a logging step exactly one iff its gates are open at that moment *)
+Theorem mstep_count : forall cfg s o,
+  List.length (snd (mstep cfg s o)) =
+    match o with MLog _ op => if step_gates cfg (has_been_set (m_regs s)) op then 1%nat else 0%nat | _ => 0%nat end.
+Proof.
+  intros cfg s o. destruct o as [t f|t|t o]; cbn [mstep].
+  - destruct (m_thr s t); reflexivity.
+  - destruct (m_thr s t) as [[f [|a rest]]|]; try reflexivity.
+    destruct (act a (m_regs s)) as [r' go]. destruct go; [destruct rest|]; reflexivity.
+  - cbn [snd]. apply step_count.
+Qed.
+
+(** ** non-vacuity: another thread's scoped default silences this thread; the window inside `set_global_default` *)
+Definition ex_ev : op := OpEvent ex_meta ex_vs.
+Example ex_other_thread_scoped :
+  map (@List.length lrec) (snd (mrun ex_cfg minit ([MLog 0 ex_ev] ++ call_block 1 FSetDefault ++ [MLog 0 ex_ev] ++
+                                                    call_block 1 FGuardDrop ++ [MLog 0 ex_ev; MLog 2 ex_ev])))
+  = [1; 0; 0; 0; 0; 0; 0; 0; 0; 0; 0]%nat.
+Proof. reflexivity. Qed.
+Example ex_installed : m_installed (fst (mrun ex_cfg minit (call_block 1 FSetDefault))) = true.
+Proof. reflexivity. Qed.
+(** thread 1 is inside `set_global_default` (CAS done, GLOBAL_DISPATCH written, GLOBAL_INIT stored) but has not
+    stored EXISTS yet: thread 0 still logs; after the store it does not *)
+Example ex_mid_install :
+  map (@List.length lrec) (snd (mrun ex_cfg minit [MCall 1 FSetGlobal; MStep 1; MStep 1; MStep 1; MLog 0 ex_ev; MStep 1; MLog 0 ex_ev]))
+  = [0; 0; 0; 0; 1; 0; 0]%nat.
+Proof. reflexivity. Qed.
+(** a second `set_global_default` fails its CAS and does nothing *)
+Example ex_second_global :
+  let s := fst (mrun ex_cfg minit (call_block 1 FSetGlobal ++ call_block 2 FSetGlobal)) in
+  (r_exists (m_regs s), r_ginit (m_regs s), m_thr s 2) = (1, 2, None).
+Proof. reflexivity. Qed.
+Example ex_no_install_mt : no_install ([MLog 0 ex_ev] ++ call_block 3 FGuardDrop ++ [MLog 1 ex_ev]).
+Proof. intros t f H. cbn in H. repeat (destruct H as [H|H]; [try discriminate; now inversion H|]). contradiction. Qed.
+Example ex_before_mt :
+  map (@List.length lrec) (snd (mrun ex_cfg minit ([MLog 0 ex_ev] ++ call_block 3 FGuardDrop ++ [MLog 1 ex_ev]))) = [1; 0; 0; 0; 1]%nat.
+Proof. reflexivity. Qed.
+
+(** * The other public entries *)
+(** `<LogTracer as log::Log>::enabled` (what `log_enabled!` asks): the answer, and what the collector was asked *)
+Theorem enabled_answer : forall st r, exists o,
+  tracer_enabled st r = Some (gate_b st r && negb (ignored_b (b_ignore st) (r_target r)) && cur_b st r, o) /\
+  events_of o = [] /\ Forall (asks_record r false) (asked_of o).
+Proof.
+  intros st r. pose proof (as_trace_metadata_ok r) as Hm1.
+  unfold tracer_enabled. change gen_tracer_asks_about_record with true. cbv iota beta delta [negb].
+  rewrite as_trace_id, gate_spec. fold (gate_b st r).
+  change gen_tracer_ignore_test with MStartsWith. cbv beta iota delta [str_test]. fold (ignored_b (b_ignore st) (r_target r)).
+  destruct (as_trace_meta gen_as_trace_metadata r) as [m1|]; [|contradiction].
+  destruct (gate_b st r); cbn [negb andb]; [|exists []; repeat split; constructor].
+  destruct (ignored_b (b_ignore st) (r_target r)); cbn [negb andb]; [exists []; repeat split; constructor|].
+  exists [OEnabled m1]. destruct Hm1 as (Hn & Ht & Hl & Hloc). rewrite Ht, Hl. fold (cur_b st r).
+  split; [reflexivity|]. split; [reflexivity|]. repeat constructor; assumption.
+Qed.
+Definition enabled_passes (st : bstate) (r : logrec) : Prop :=
+  rank_lv (r_level r) <= rank (VF (b_max st)) /\ ~ Ignored (b_ignore st) (r_target r) /\ b_cur st (r_target r) (r_level r) = true.
+Theorem enabled_iff : forall st r, exists o,
+  tracer_enabled st r = Some (true, o) /\ enabled_passes st r \/ tracer_enabled st r = Some (false, o) /\ ~ enabled_passes st r.
+Proof.
+  intros st r. destruct (enabled_answer st r) as (o & H & _). exists o. rewrite H.
+  pose proof (passes_reflect st EDirect r) as P. unfold passes_b, passes in P. unfold enabled_passes.
+  destruct (gate_b st r && negb (ignored_b (b_ignore st) (r_target r)) && cur_b st r).
+  - left. split; [reflexivity|]. now apply P.
+  - right. split; [reflexivity|]. intros X. apply P in X. discriminate.
+Qed.
+
+(** `AsTrace for log::Metadata / log::Record`, `AsLog for Metadata` *)
+Theorem as_trace_public : forall r,
+  (exists m, as_trace_meta gen_as_trace_metadata r = Some m /\ asks_record r false m) /\
+  (exists m, as_trace_meta gen_as_trace_record r = Some m /\ asks_record r true m).
+Proof.
+  intros r. pose proof (as_trace_metadata_ok r) as H1. pose proof (as_trace_record_ok r) as H2.
+  destruct (as_trace_meta gen_as_trace_metadata r); [|contradiction].
+  destruct (as_trace_meta gen_as_trace_record r); [|contradiction].
+  split; eexists; (split; [reflexivity | assumption]).
+Qed.
+Theorem as_log_meta_ok : forall m, as_log_meta m = Some (m_level m, m_target m).
+Proof. intros m. unfold as_log_meta. change gen_as_log_metadata with (true, true). cbv iota beta. cbn [andb]. now rewrite as_log_id. Qed.
+(** `LogTracer::builder()[.with_max_level(f)].init()`: `log::max_level()` afterwards *)
+Theorem builder_max_ok : forall w, builder_log_max w = Some (match w with Some f => f | None => Some Trace end).
+Proof. intros [f|]; reflexivity. Qed.
+
+(** normalisation without the `u32` hypothesis: the line is the record's modulo 2^32 (`l as u32`) *)
+Theorem normalized_any_line : forall st en r o e, bridge st en r = Some o -> In e (events_of o) ->
+  message_of e = Some (r_msg r) /\ normalize e = Some (Some (normal_of r)).
+Proof.
+  intros st en r o e Ho Hin. destruct (bridge_closed st en r) as (o' & Ho' & _ & H).
+  rewrite Ho in Ho'. inversion Ho'; subst o'.
+  destruct H as [[_ (e' & He' & Hok)] | [_ He']]; rewrite He' in Hin; [|contradiction].
+  destruct Hin as [<-|[]]. destruct Hok as (_ & _ & _ & _ & Hmsg & Hn). split; assumption.
+Qed.
+
+(** * What the translator read from the sources, pinned: each generated table equals the value the statements above
+      were proved about.  A change to any of the anchored functions flips one of these (or is not recognised). *)
+Lemma source_flag :
+  gen_has_been_set = HLoad AExists /\
+  gen_fn_set_default = [ActLocal; ActStore AExists 1; ActFetchAdd AScopedCount 1] /\
+  gen_fn_guard_drop = [ActFetchSub AScopedCount 1; ActLocal] /\
+  gen_fn_set_global = [ActCas AGlobalInit 0 1; ActLocal; ActStore AGlobalInit 2; ActStore AExists 1].
+Proof. repeat split; reflexivity. Qed.
+
+Lemma source_tracer :
+  gen_tracer_gate = RGt /\ gen_tracer_ignore_test = MStartsWith /\ gen_tracer_asks_about_record = true /\
+  gen_dispatch_checks_enabled = true /\
+  gen_as_trace_metadata = (log_record_name, (false, false, false)) /\
+  gen_as_trace_record = (log_record_name, (true, true, true)) /\
+  gen_builder_default_max = Some Trace /\ gen_builder_init_sets_max = true /\ gen_as_log_metadata = (true, true).
+Proof. repeat split; reflexivity. Qed.
+
+Definition LOG_TARGET_F : bytes := [108; 111; 103; 46; 116; 97; 114; 103; 101; 116].                      (* "log.target" *)
+Definition LOG_MODULE_F : bytes := [108; 111; 103; 46; 109; 111; 100; 117; 108; 101; 95; 112; 97; 116; 104].  (* "log.module_path" *)
+Definition LOG_FILE_F : bytes := [108; 111; 103; 46; 102; 105; 108; 101].                                  (* "log.file" *)
+Definition LOG_LINE_F : bytes := [108; 111; 103; 46; 108; 105; 110; 101].                                  (* "log.line" *)
+Lemma source_event :
+  gen_cs_name = log_event_name /\ gen_cs_target = log_target /\
+  gen_field_names = [MESSAGE; LOG_TARGET_F; LOG_MODULE_F; LOG_FILE_F; LOG_LINE_F] /\
+  gen_fields_new = [("message", MESSAGE); ("target", LOG_TARGET_F); ("module", LOG_MODULE_F); ("file", LOG_FILE_F); ("line", LOG_LINE_F)]%string /\
+  gen_dispatch_values = [("message", "args"); ("target", "target"); ("module", "module_path"); ("file", "file"); ("line", "line")]%string /\
+  (* the five synthetic callsites: each level has its own, both lookups agree, its static metadata carries that level,
+     its keys belong to its own field set *)
+  (forall l, exists cs fields meta,
+     assoc_lv l gen_level_to_cs = Some (cs, fields) /\ assoc_lv l gen_loglevel_to_cs = Some (cs, fields, meta) /\
+     assoc_str cs gen_log_cs = Some (l, meta) /\ assoc_str fields gen_fields_static = Some cs) /\
+  (forall l1 l2 c1 c2, assoc_lv l1 gen_level_to_cs = Some c1 -> assoc_lv l2 gen_level_to_cs = Some c2 -> fst c1 = fst c2 -> l1 = l2).
+Proof.
+  repeat split; try reflexivity.
+  - intros []; do 3 eexists; repeat split; reflexivity.
+  - intros [] [] c1 c2 H1 H2; inversion H1; inversion H2; subst; cbn; intros E; try reflexivity; discriminate.
+Qed.
+
+Lemma source_normalize :
+  gen_norm_name = log_event_name /\ gen_norm_default_target = log_target /\
+  gen_norm_slots = ("file", "line", "module_path")%string /\ gen_norm_fields = [MESSAGE] /\
+  gen_visit_str = [("file", "file"); ("target", "target"); ("module", "module_path")]%string /\
+  gen_visit_u64 = [("line", "line")]%string.
+Proof. repeat split; reflexivity. Qed.
+
+Lemma source_reverse :
+  gen_iflog_checks_exists = true /\ gen_iflog_always_checks_exists = false /\
+  (forall l, level_to_log l = l) /\
+  gen_lifecycle_target = lifecycle_target /\ gen_activity_target = activity_target /\
+  gen_span_enter = (Trace, activity_target, Trace, [s_enter; s_semi]) /\
+  gen_span_exit = (Trace, activity_target, Trace, [s_exit; s_semi]) /\
+  gen_span_drop = (Trace, lifecycle_target, Trace, [s_close; s_semi]) /\
+  gen_span_new = (lifecycle_target, [s_plusplus; s_semi; []], false) /\
+  gen_span_record = (lifecycle_target, [[]; s_semi; []], false) /\
+  gen_span_id_fmt = [[]; s_span_eq; []] /\
+  gen_span_log_max_on_span_level = true /\
+  gen_span_log_builder = [("module_path", "module_path"); ("file", "file"); ("line", "line")]%string /\
+  gen_macro_log_builder = [("file", "file"); ("module_path", "module_path"); ("line", "line")]%string /\
+  gen_follows_from_logs = false /\
+  gen_lvs_message = [[]; []] /\ gen_lvs_first = [[]; EQ; []] /\ gen_lvs_rest = [[32]; EQ; []] /\
+  gen_lvs_message_name = MESSAGE.
+Proof. repeat split; try reflexivity. apply level_to_log_id. Qed.
